@@ -8,7 +8,7 @@ import QV.Proofs.Call
 > (variables, tuple elements, repeated or swapped arguments, several calls) and whatever names
 > caller and callee use.  The callee object is unchanged.
 
-Model: `QV/Model/Call.lean` (`Env.bind_function`, the *Known function* branch of
+Model: `QV/Model/Call.lean` (`Env.bind_function` with its guard, `know_function` / `getdef` = `resolve`, the *Known function* branch of
 `translate_expression`, `oraclize`'s handling of the callee).  The statement below is about the
 call mechanism: for **every** well-formed callee definition list, **every** list of actual
 argument bit expressions of the callee's shape (any expressions: variables, tuple elements,
@@ -271,6 +271,120 @@ example : ¬ WFStrict rpCallee := fun h => by
 
 example : Shaped exCallee.args [⟨true, false, [.sym "c.1", .sym "c.1"]⟩, ⟨false, false, [.not (.sym "c.0")]⟩] := by
   simp [Shaped, exCallee]
+
+/-! ## which definition a call reaches: name histories of the callee environment
+
+`Env.defs` is a list; `bind_function` refuses a definition called like a type or like one of
+`RESERVED_FUNCTION_NAMES` (`QV.Gen.reservedFunctionNames`, read from env.py) and appends every other one,
+`know_function` = exactly one definition of that name, `getdef` = the first.  In Python a call reaches the MOST
+RECENT binding of the name.  The code never hands a caller a stale definition: it resolves a name only while it was
+bound once; and it never binds a definition it would not call. -/
+
+/-- `bind_function`'s guard: a definition called like a type the environment knows (a call of that name is a typecast
+for `translate_expression`) or like a reserved name (ast2ast rewrites the call) is REFUSED – it is never dropped
+without a word, and the environment is not extended -/
+theorem bind_reserved_refused (q : Quirks) (types : List String) (defs : List LogicFun)
+    (ords : List (List String)) (f : LogicFun) (h : refusedName types f.name = true) :
+    envBind q types defs ords f = .error "Exception" := by
+  simp only [envBind, h, ↓reduceIte]
+
+/-- the names of the source's table are refused whatever types the environment knows (a `decide` over the whole
+finite table `QV.Gen.reservedFunctionNames`): among them every name ast2ast / `translate_expression` dispatch on -/
+theorem reserved_table_refused (types : List String) :
+    ∀ n ∈ QV.Gen.reservedFunctionNames, refusedName types n = true := by
+  intro n hn
+  simp only [refusedName, Bool.or_eq_true]
+  exact Or.inr (List.contains_iff_mem.mpr hn)
+
+example : ∀ n ∈ ["print", "range", "len", "sum", "ord", "chr", "any", "all", "min", "max", "abs", "int", "float"],
+    n ∈ QV.Gen.reservedFunctionNames := by decide
+
+/-- every other definition is APPENDED – also when the environment already holds a definition of that name: the
+guard does not look at the definitions -/
+theorem bind_appends (q : Quirks) (types : List String) (defs : List LogicFun)
+    (ords : List (List String)) (f : LogicFun) (h : refusedName types f.name = false) :
+    envBind q types defs ords f = .ok (defs ++ [bindFunction q ords f]) := by
+  simp only [envBind, h, ↓reduceIte, Bool.false_eq_true]
+
+/-- a bind that succeeds only ever appends the bound definition (so an accepted definition has no refused name) -/
+theorem bind_ok_inv (q : Quirks) (types : List String) (defs defs' : List LogicFun)
+    (ords : List (List String)) (f : LogicFun) (h : envBind q types defs ords f = .ok defs') :
+    refusedName types f.name = false ∧ defs' = defs ++ [bindFunction q ords f] := by
+  unfold envBind at h
+  split at h
+  · cases h
+  · rename_i hr
+    cases h
+    exact ⟨by simpa using hr, rfl⟩
+
+/-- the environment after binding `f1` and then `f2` (any accepted names, equal or not): both are there, in that
+order -/
+theorem bind_twice (q : Quirks) (types : List String) (defs : List LogicFun)
+    (o1 o2 : List (List String)) (f1 f2 : LogicFun)
+    (h1 : refusedName types f1.name = false) (h2 : refusedName types f2.name = false) :
+    (envBind q types defs o1 f1 >>= fun d => envBind q types d o2 f2)
+      = .ok (defs ++ [bindFunction q o1 f1, bindFunction q o2 f2]) := by
+  rw [bind_appends q types defs o1 f1 h1]
+  show envBind q types (defs ++ [bindFunction q o1 f1]) o2 f2 = _
+  rw [bind_appends q types _ o2 f2 h2]
+  simp
+
+/-- a call always resolves to a definition the environment holds under that name, and then it is the ONLY one of
+that name (so also the most recent one) – `know_function` is "exactly one", `getdef` the first -/
+theorem resolve_sound (defs : List LogicFun) (n : String) (d : LogicFun) (h : resolve defs n = some d) :
+    d ∈ defs ∧ d.name = n ∧ ∀ d' ∈ defs, d'.name = n → d' = d := by
+  unfold resolve at h
+  split at h
+  · rename_i hk
+    unfold getDef at h
+    have hm := List.mem_of_find?_eq_some h
+    have hp := List.find?_some h
+    simp at hp
+    refine ⟨hm, hp, ?_⟩
+    intro d' hd' hn'
+    unfold knowFunction at hk
+    simp at hk
+    have hd : d ∈ defs.filter (fun d => d.name == n) := by simp [List.mem_filter, hm, hp]
+    have hd2 : d' ∈ defs.filter (fun d => d.name == n) := by simp [List.mem_filter, hd', hn']
+    generalize defs.filter (fun d => d.name == n) = l at hk hd hd2
+    match l, hk with
+    | [x], _ =>
+      simp at hd hd2
+      rw [hd, hd2]
+  · cases h
+
+/-- after the first (accepted) binding of a name, a call of that name reaches that definition -/
+theorem resolve_first_binding (q : Quirks) (types : List String) (defs defs' : List LogicFun)
+    (ords : List (List String)) (f : LogicFun) (hb : envBind q types defs ords f = .ok defs')
+    (hfresh : ∀ d ∈ defs, d.name ≠ f.name) :
+    resolve defs' f.name = some (bindFunction q ords f) := by
+  obtain ⟨_, rfl⟩ := bind_ok_inv q types defs defs' ords f hb
+  have hfil : defs.filter (fun d => d.name == f.name) = [] := by
+    simp [List.filter_eq_nil_iff]; exact hfresh
+  have hfind : defs.find? (fun d => d.name == f.name) = none := by
+    simp [List.find?_eq_none]; exact hfresh
+  simp [resolve, knowFunction, getDef, List.filter_append, hfil, List.find?_append, hfind, bindFunction]
+
+/-- after a SECOND (accepted) binding under the same name no call of that name is resolved at all
+(`UnknownSymbolException`): in particular a call never reaches the first, stale definition – whatever the two
+bodies are -/
+theorem resolve_rebound (q : Quirks) (types : List String) (defs d1 d2 : List LogicFun)
+    (o1 o2 : List (List String)) (f1 f2 : LogicFun)
+    (hb1 : envBind q types defs o1 f1 = .ok d1) (hb2 : envBind q types d1 o2 f2 = .ok d2)
+    (hn : f2.name = f1.name) :
+    resolve d2 f1.name = none := by
+  obtain ⟨_, rfl⟩ := bind_ok_inv q types defs d1 o1 f1 hb1
+  obtain ⟨_, rfl⟩ := bind_ok_inv q types _ d2 o2 f2 hb2
+  simp [resolve, knowFunction, List.filter_append, bindFunction, hn]
+
+/-- binding another name – accepted or refused – does not change what a name resolves to -/
+theorem resolve_other_name (q : Quirks) (types : List String) (defs : List LogicFun)
+    (ords : List (List String)) (g : LogicFun) (n : String) (hne : g.name ≠ n) :
+    resolve (match envBind q types defs ords g with | .ok d => d | .error _ => defs) n = resolve defs n := by
+  cases hr : refusedName types g.name
+  · rw [bind_appends q types defs ords g hr]
+    simp [resolve, knowFunction, getDef, List.filter_append, List.find?_append, bindFunction, hne]
+  · rw [bind_reserved_refused q types defs ords g hr]
 
 /-! ## the listed defects: the model of the code as it is violates the property -/
 
